@@ -325,11 +325,11 @@ pub fn parts(tier: Tier) -> Vec<(String, Rx, u64, Vec<u64>, u32)> {
     let small: Vec<u64> = vec![0, 1, 2, 255, 256, 257, 258, 511, 512, 513];
     let big: Vec<u64> = vec![0, 1, 2, 254, 255, 256, 257, 258, 300, 511, 512, 513, 767, 768];
     let offs = tier.pick(small.clone(), big);
-    let d = tier.pick(6, 8);
+    let d = tier.pick(7, 8);
     let mut v = vec![];
     for rx in [Rx::Server, Rx::Client] {
         v.push((format!("{:?} base 0", rx), rx, 0u64, offs.clone(), d));
-        v.push((format!("{:?} base 2^32-256", rx), rx, (1u64 << 32) - 256, small.clone(), tier.pick(5, 6)));
+        v.push((format!("{:?} base 2^32-256", rx), rx, (1u64 << 32) - 256, small.clone(), tier.pick(6, 6)));
         if tier == Tier::Thorough {
             v.push((format!("{:?} base 2^56", rx), rx, 1u64 << 56, small.clone(), 5));
             v.push((format!("{:?} base 2^64-600", rx), rx, u64::MAX - 600, small.clone(), 5));
@@ -337,11 +337,11 @@ pub fn parts(tier: Tier) -> Vec<(String, Rx, u64, Vec<u64>, u32)> {
     }
     // jumps of exactly one, two and three 64-number words (and their neighbours)
     for rx in [Rx::Server, Rx::Client] {
-        v.push((format!("{:?} base 0, jumps around multiples of 64", rx), rx, 0u64, vec![0, 1, 63, 64, 65, 127, 128, 129, 192, 193], tier.pick(4, 5)));
+        v.push((format!("{:?} base 0, jumps around multiples of 64", rx), rx, 0u64, vec![0, 1, 63, 64, 65, 127, 128, 129, 192, 193], tier.pick(5, 5)));
     }
     // sessions whose handshake ran over a lossy path (repeated response, late first keep-alive)
     for rx in [Rx::Server, Rx::Client] {
-        v.push((format!("{:?} base 0 after a lossy handshake", rx), rx, 0u64, vec![0, 1, 2, 3, 255, 256, 257], tier.pick(4, 6)));
+        v.push((format!("{:?} base 0 after a lossy handshake", rx), rx, 0u64, vec![0, 1, 2, 3, 255, 256, 257], tier.pick(5, 6)));
     }
     v
 }
